@@ -8,12 +8,12 @@ checks = {
  "C05": ("model_checking", "E1 history explorer", "same exploration as C01; after every transition: previous tape is a prefix, rejected calls append nothing, block alignment, archive/tar and an independent scanner iterate the whole tape identically, member data equals content", "§6 C05"),
  "C06": ("fault_enumeration", "E2 crash enumerator", "every prefix length (thorough: byte granular) of the final tapes of a history set, each rebuilt with the real indexer and compared with the clean cut after the last complete record", "§6 C06"),
  "C07": ("model_checking", "E1 history explorer", "for every state of the exploration and every record prefix j: index of the first j records + replay of the whole tape (twice) must converge to the from-scratch rebuild", "§6 C07"),
- "C08": ("fault_enumeration", "E5 + byte enumeration", "every single-byte alteration (3 values per position) of tapes written under signatures, plus the complete list of structured forgeries; every accepted header must be one the writer signed, every restored content the one signed under it", "§6 C08"),
+ "C08": ("fault_enumeration", "E5 + byte enumeration", "every single-byte alteration (3 values per position) of tapes written under signatures, plus the complete list of structured forgeries; every accepted header must be one the writer signed, every content restored (recovery.Fetch) or read through the file API (Open+Read+Close) the one signed under it, or an error", "§6 C08"),
  "C09": ("model_checking", "E1 history explorer", "breadth-first search over histories whose names, contents, owners and times carry markers; after every transition the raw tape is searched for every marker in raw/base64/hex/decimal form and outer headers are parsed; rebuild and fetch with an unrelated key must fail", "§6 C09"),
- "C10": ("fault_enumeration", "E3 fault enumerator", "for every state-merged history and call: every single fault point the fault-free run reaches at every seam, followed by a probe; hangs decided by the cooperative scheduler (no enabled thread), panics recovered and reported", "§6 C10"),
+ "C10": ("fault_enumeration", "E3 fault enumerator", "for every state-merged history and call (including Initialize on an empty drive, again, and of a fresh instance over the same tape with the same / an empty index): every single fault point the fault-free run reaches at every seam, followed by a probe; hangs decided by the cooperative scheduler (no enabled thread), panics recovered and reported", "§6 C10"),
  "C11": ("model_checking", "E4 schedule explorer", "stateless DFS over all interleavings of 2-3 client threads + background goroutines on the real code under a controlled scheduler, iterative preemption bounding; each schedule judged for completion, linearizability against the implementation's own sequential runs, and reproducibility from the tape; separate sampled -race pass", "§6 C11"),
  "C12": ("model_checking", "E1 history explorer", "all subsets (size bound) of a top-level name universe {a, ab, a_, a%, 'a b', a., ä} populated with children as initial states; all recursive removes/renames; tree and rebuilt tree vs reference", "§6 C12"),
- "C13": ("model_checking", "E1 history explorer", "same exploration as C02 plus deep/many-children alphabet; after every transition: live rows = reachable set, parents are directories, Readdir/Readdirnames for n in {-1,0,1,2,children,children+1}, listings agree with lookups", "§6 C13"),
+ "C13": ("model_checking", "E1 history explorer", "same exploration as C02 plus deep/many-children alphabet; after every transition: live rows = reachable set, parents are directories, Readdir/Readdirnames for n in {-1,0,1,2,children,children+1}, listings agree with lookups; plus every schedule (preemption-bounded, E4) of two-thread parent-vs-child scenarios judged for the well-formedness of the final namespace", "§6 C13"),
  "C14": ("model_checking", "E6 handle explorer", "breadth-first search over handle-call sequences (tiny argument domains incl. negative/at/beyond end), state-merged by (content, cursor, mode), for every flag combination, both write caches; every call compared with a byte-array reference incl. the reported cursor; reopen after close", "§6 C14"),
  "C15": ("model_checking", "E1 variant", "all histories (depth bound) over every mutating and non-mutating method incl. the full OpenFile flag lattice against read-only instances (with and without write backend, with and without index) over populated tapes; tape hash and index rows unchanged, permission errors, reads equal a writable twin", "§6 C15"),
  "C16": ("fault_enumeration", "E2 crash enumerator", "tapes of a history set, intact or cut at every block/write boundary (+-1) and inside the last records, x index {absent, current, stale}; Initialize, then follow-up write, read-back and rebuild", "§6 C16"),
@@ -47,7 +47,7 @@ m = {
   {"name": "E1 history explorer", "path": "mc/engines/e1ctl.go, e1work.go, e1more.go", "serves_properties": ["C01","C02","C04","C05","C07","C09","C12","C13","C15","C17"], "kind_free_text": "explicit-state breadth-first search over call histories of the real implementation, states merged by canonical key, reference model in lock-step"},
   {"name": "E2 crash enumerator", "path": "mc/engines/e2ctl.go, e2work.go", "serves_properties": ["C06","C16"], "kind_free_text": "every crash point (tape prefix) of a set of real tapes"},
   {"name": "E3 fault enumerator", "path": "mc/engines/e3ctl.go, e3work.go", "serves_properties": ["C10"], "kind_free_text": "every single fault point per seam and call"},
-  {"name": "E4 schedule explorer", "path": "mc/engines/c11work.go, mc/shim/vsync/vsync.go", "serves_properties": ["C11"], "kind_free_text": "controlled cooperative scheduler + preemption-bounded stateless DFS"},
+  {"name": "E4 schedule explorer", "path": "mc/engines/c11work.go, mc/shim/vsync/vsync.go", "serves_properties": ["C11","C13"], "kind_free_text": "controlled cooperative scheduler + preemption-bounded stateless DFS"},
   {"name": "E5 matrix enumerators", "path": "mc/engines/e5work.go, c08work.go, c17work.go, c18work.go", "serves_properties": ["C03","C08","C17","C18"], "kind_free_text": "complete Cartesian products"},
   {"name": "E6 handle explorer", "path": "mc/engines/e6work.go", "serves_properties": ["C14"], "kind_free_text": "BFS over handle-call sequences against a byte-array reference"},
  ],
